@@ -371,6 +371,12 @@ class Inliner:
             r = try_call(s.value, [e.id for e in s.targets[0].elts])
             if r is not None:
                 return r
+        if isinstance(s, ast.Assign) and not (len(s.targets) == 1 and isinstance(s.targets[0], (ast.Name, ast.Tuple))) and isinstance(s.value, ast.Call):
+            # `self.x = helper(...)`, `d[k] = helper(...)`, `a = b = helper(...)`: through a temporary
+            t = fresh()
+            r = try_call(s.value, t)
+            if r is not None:
+                return r + [ast.copy_location(ast.Assign(targets=s.targets, value=ast.Name(id=t, ctx=ast.Load()), lineno=s.lineno), s)]
         if isinstance(s, ast.Expr):
             r = try_call(s.value, None)
             if r is not None:
